@@ -58,6 +58,8 @@ type tenant struct {
 	// maxClass is the largest size class (log2) the co-tenant takes buffers from; 0 = tenantMaxClass.
 	// Classes above tenantMaxClass are swept with 2 buffers instead of tenantK.
 	maxClass int
+	// light: only classes 2^12..2^18, 2 buffers each (for histories of thousands of steps)
+	light bool
 }
 
 // tenantFor returns a co-tenant that covers the size classes a history moving maxBytes can touch.
@@ -131,9 +133,13 @@ func (tn *tenant) sweep(protected []memRange, hold bool) *evid.Violation {
 	if tn.maxClass > maxClass {
 		maxClass = tn.maxClass
 	}
-	for c := tenantMinClass; c <= maxClass; c++ {
+	minClass := tenantMinClass
+	if tn.light {
+		minClass, maxClass = 12, 18
+	}
+	for c := minClass; c <= maxClass; c++ {
 		for k := 0; k < tenantK; k++ {
-			if c > tenantMaxClass && k >= 2 {
+			if (c > tenantMaxClass || tn.light) && k >= 2 {
 				break
 			}
 			b := mcache.Malloc(1 << c)
@@ -230,6 +236,7 @@ func checkReaderTenant(c ReaderCase, cv *cov) *evid.Violation {
 		c.Tenant = 1
 	}
 	tn := tenantFor(c.Total)
+	tn.light = len(c.Ops) > 400
 	hooks := &readerHooks{}
 	hooks.afterOp = func(step int, op ROp, live [][]byte) *evid.Violation {
 		var prot []memRange
@@ -279,6 +286,9 @@ func checkWriterTenant(c WriterCase, cv *cov) *evid.Violation {
 		}
 	}
 	tn := tenantFor(wtotal)
+	if len(c.Ops) > 400 {
+		tn = &tenant{light: true}
+	}
 	hooks := &writerHooks{}
 	hooks.afterOp = func(step int, op WOp, live [][]byte, owned [][]byte) *evid.Violation {
 		var prot []memRange
@@ -336,7 +346,7 @@ type SkipTenantCase struct {
 func checkSkipTenant(c SkipTenantCase, cv *cov) (v *evid.Violation) {
 	old := runtime.GOMAXPROCS(1)
 	defer runtime.GOMAXPROCS(old)
-	if len(c.Lens) == 0 || len(c.Lens) > 40 {
+	if len(c.Lens) == 0 || len(c.Lens) > 5000 {
 		return nil
 	}
 	if c.Tenant == 0 {
@@ -363,6 +373,7 @@ func checkSkipTenant(c SkipTenantCase, cv *cov) (v *evid.Violation) {
 		return nil
 	}
 	tn := tenantFor(maxLen)
+	tn.light = len(c.Lens) > 200
 	grew := false
 	sawFail := false
 	// failedDecode lets a pooled decoder fail on a truncated value of string length l.
@@ -925,4 +936,104 @@ func TestC09_Pairs(t *testing.T) {
 	rec := evid.New("C09", "c09_pairs", "rapid: two bufiox objects (reader+reader, reader+writer, writer+writer; the C09 reader and writer histories of <= 14 operations) alive at the same time and driven alternately on one processor (1..3 operations of one, then of the other, lock-stepped goroutines under GOMAXPROCS(1) so that both use the same pool caches), with the co-tenant after every operation; each object's own oracle (delivered bytes, live slices, regions, caller memory, sink contents) must hold; non-trivial = both objects did >= 2 operations and control changed sides >= 4 times")
 	defer rec.Flush()
 	runRapid(t, rec, "c09_pair", evid.Pick(1500, 12000), genPairCase, checkPair)
+}
+
+// TestC09_LongLived: one skip decoder object (and its pooled successors) used for thousands of values
+// after one large value has grown its buffer, with the co-tenant after every value.
+func TestC09_LongLived(t *testing.T) {
+	rec := evid.New("C09", "c09_long_lived", "enumeration: value lengths {70000, then 2300 x 10 bytes} and {20000, then 2300 x 3000 bytes} decoded by one SkipDecoder / ReaderSkipDecoder (kept for the whole run, or released to its pool and fetched again after every value), a light co-tenant (2 buffers of every class 4 KiB..256 KiB) after every value; likewise one reader for 2300 rounds of {Next; Release} and one writer (stream- and bytes-backed) for 2300 rounds of {Malloc; WriteBinary; Flush}; every result must hold its bytes until the next Next (ReaderSkipDecoder) / the Release of the reader (SkipDecoder); distinct by construction")
+	defer rec.Flush()
+	bt := evid.NewBatch()
+	shard, nshards := evid.Shard()
+	idx := 0
+	for _, shape := range [][3]int{{70000, 10, 2300}, {20000, 3000, 2300}} {
+		for variant := 0; variant < 4; variant++ {
+			idx++
+			if idx%nshards != shard {
+				continue
+			}
+			c := SkipTenantCase{Reader: variant&1 == 1, Cycle: variant&2 != 0, Tenant: 1, Plan: faultio.Plan{Chunks: []int{4096}, ErrAt: -1}}
+			c.Lens = append(c.Lens, shape[0])
+			c.Release = append(c.Release, true)
+			for i := 0; i < shape[2]; i++ {
+				c.Lens = append(c.Lens, shape[1])
+				c.Release = append(c.Release, i%7 == 6)
+			}
+			var cv cov
+			v := checkSkipTenant(c, &cv)
+			bt.Evals++
+			bt.Distinct++
+			bt.Nontrivial++
+			if v != nil {
+				failEnum(t, rec, "c09_long_lived", LongSkipCase{First: shape[0], Small: shape[1], N: shape[2], Reader: c.Reader, Cycle: c.Cycle}, v)
+				rec.Merge(bt)
+				return
+			}
+		}
+	}
+	// long-lived readers and writers with the same light co-tenant after every operation
+	for ri, small := range []int{100, 3000} {
+		idx++
+		if idx%nshards != shard {
+			continue
+		}
+		ops := []ROp{{"next", 20000}, {"release", 0}}
+		for r := 0; r < 2300; r++ {
+			ops = append(ops, ROp{"next", small}, ROp{"release", 0})
+		}
+		rc := ReaderCase{Total: 20000 + 2300*small + 9000, Plan: faultio.Plan{Chunks: []int{4096}, ErrAt: -1, WithData: ri == 1}, Ops: ops, Tenant: 1}
+		var cv cov
+		if v := checkReaderTenant(rc, &cv); v != nil {
+			failEnum(t, rec, "c09_reader_tenant", ReaderCase{Total: rc.Total, Plan: rc.Plan, Tenant: 1, Ops: ops[:6]}, evid.Failf("reader used for 2300 rounds of {Next %d; Release} after a first request of 20000 bytes: %s", small, v.Msg))
+			rec.Merge(bt)
+			return
+		}
+		bt.Evals++
+		bt.Distinct++
+		bt.Nontrivial++
+		for _, bw := range []bool{false, true} {
+			wops := []WOp{}
+			for r := 0; r < 2300; r++ {
+				wops = append(wops, WOp{"malloc", small}, WOp{"writebin", 40}, WOp{"flush", 0})
+			}
+			wc := WriterCase{Bytes: bw, InitLen: 0, InitCap: 4096, Ops: wops, Tenant: 1, Pow2: true}
+			var cv2 cov
+			if v := checkWriterTenant(wc, &cv2); v != nil {
+				failEnum(t, rec, "c09_writer_tenant", WriterCase{Bytes: bw, InitCap: 4096, Tenant: 1, Pow2: true, Ops: wops[:6]}, evid.Failf("writer (bytes-backed: %v) used for 2300 rounds of {Malloc %d; WriteBinary 40; Flush}: %s", bw, small, v.Msg))
+				rec.Merge(bt)
+				return
+			}
+			bt.Evals++
+			bt.Distinct++
+			bt.Nontrivial++
+		}
+	}
+	rec.Merge(bt)
+	rec.Sample(LongSkipCase{First: 70000, Small: 10, N: 2300, Reader: true, Cycle: true})
+	rec.SetExhaustive()
+}
+
+// LongSkipCase is the compact replayable form of a c09_long_lived case.
+type LongSkipCase struct {
+	First  int  `json:"first"`
+	Small  int  `json:"small"`
+	N      int  `json:"n"`
+	Reader bool `json:"reader"`
+	Cycle  bool `json:"cycle"`
+}
+
+func init() {
+	register("c09_long_lived", func(c LongSkipCase, cv *cov) *evid.Violation {
+		if c.N < 0 || c.N > 4500 || c.First < 0 || c.Small < 0 {
+			return nil
+		}
+		sc := SkipTenantCase{Reader: c.Reader, Cycle: c.Cycle, Tenant: 1, Plan: faultio.Plan{Chunks: []int{4096}, ErrAt: -1}}
+		sc.Lens = append(sc.Lens, c.First)
+		sc.Release = append(sc.Release, true)
+		for i := 0; i < c.N; i++ {
+			sc.Lens = append(sc.Lens, c.Small)
+			sc.Release = append(sc.Release, i%7 == 6)
+		}
+		return checkSkipTenant(sc, cv)
+	})
 }
